@@ -341,54 +341,26 @@ class HasChangedSem(Semantics):
 
 
 def rule_spec_clause(ctx, r):
+    """Spec clause: a target is 'changed' unless a record exists under its name that equals the hash of its current spec; update records,
+    invalidate erases; with hashing off nothing is ever 'changed'.  Decided by scenario evaluation of the (pure) store methods."""
+    from .evalhelpers import eval_spec_store
     idx = ctx.index
-    fsh = idx.cls(f"{CORE}:FileSpecHashes")
-    hc = idx.method(fsh, "has_changed")
-    con = f"{hc.module.relpath}::{hc.qual}"
-    sem = HasChangedSem(ctx, hc)
-    outs = Explorer(sem).run(State())
-    bad = None
-    n_none = 0
-    for o in outs:
-        if o.kind != RETURN:
-            continue
-        is_none = o.payload is None or (isinstance(o.payload, ast.Constant) and o.payload.value is None)
-        saved_dom = None
-        for sv in sem.saved:
-            saved_dom = o.state.vars.get(sv, saved_dom)
-        unchanged = saved_dom == frozenset(["HASH"]) and o.state.facts.get("equal") is True
-        if is_none:
-            n_none += 1
-            if not unchanged:
-                bad = (o, "has_changed reports 'unchanged' (None) although no record exists or the recorded hash differs")
-        elif unchanged:
-            bad = (o, "has_changed reports a change although the recorded hash equals the current one")
-    if n_none == 0:
-        bad = (None, "has_changed never reports 'unchanged': with hashing on every target is stale forever")
-    r.check(bad is None, con, f"{len(outs)} paths: None iff a record exists and equals hash_spec(target.spec)", bad[1] if bad else "", hc.where,
-            fmt_trace(bad[0].state, hc.module) if bad and bad[0] else None)
-    key_ok = any(isinstance(n, ast.Call) and ast.unparse(n).endswith(".get(target.name)") or ast.unparse(n) == "self.hashes.get(target.name)" for n in ast.walk(hc.node)
-                 if isinstance(n, ast.Call))
-    cur_ok = any(ast.unparse(n) == "hash_spec(target.spec)" for n in ast.walk(hc.node) if isinstance(n, ast.Call))
-    r.check(key_ok and cur_ok, con + "::keys", "record looked up by target.name, compared with hash_spec(target.spec)",
-            "has_changed does not compare the record stored under target.name with hash_spec(target.spec)", hc.where)
-    hs = idx.func(f"{CORE}:hash_spec")
-    hret = [ast.unparse(n.value) for n in walk_no_nested(hs.node) if isinstance(n, ast.Return) and n.value is not None]
-    r.check(len(hret) == 1 and ("sha1(spec.encode(" in hret[0] or "sha256(spec.encode(" in hret[0]) and hret[0].endswith(".hexdigest()"), f"{hs.module.relpath}::{hs.qual}",
-            "hash_spec returns a content hash of the spec text", f"hash_spec returns {hret}: different specs must get different recorded values", hs.where)
-    upd = idx.method(fsh, "update")
-    r.check("self.hashes[target.name] = hash_spec(target.spec)" in ast.unparse(upd.node), f"{upd.module.relpath}::{upd.qual}", "update records hash_spec(target.spec) under target.name",
-            "FileSpecHashes.update does not record hash_spec(target.spec) under target.name: 'unchanged since last submitted or touched' can never become true", upd.where)
-    load = idx.method(fsh, "__attrs_post_init__")
-    lt = ast.unparse(load.node) if load else ""
-    r.check("open(self.path)" in lt and "self.hashes = json.load(" in lt, f"{fsh.module.relpath}::FileSpecHashes.load", "records of earlier invocations are loaded",
-            "the recorded hashes of earlier invocations are not loaded: every target looks never-recorded", fsh.where)
+    steps, ci = eval_spec_store(ctx)
+    con = f"{ci.module.relpath}::{ci.qual}"
+    for name, got, want, ok in steps:
+        r.check(ok, f"{con}::{name}", f"{name}: {want}", f"spec-hash store, step `{name}`: got {str(got)[:60]!r}, expected {want}", ci.where)
     nsh = idx.cls(f"{CORE}:NoopSpecHashes")
     nh = idx.method(nsh, "has_changed")
     rets = [n for n in walk_no_nested(nh.node) if isinstance(n, ast.Return)]
-    r.check(rets and all(n.value is None or (isinstance(n.value, ast.Constant) and n.value.value is None) for n in rets),
+    r.check(all(n.value is None or (isinstance(n.value, ast.Constant) and n.value.value is None) for n in rets),
             f"{nh.module.relpath}::{nh.qual}", "with hashing off a spec edit never makes a target stale (returns None)",
             "NoopSpecHashes.has_changed can report a change: with hashing disabled a spec edit would cause re-runs", nh.where)
+    fsh = idx.cls(f"{CORE}:FileSpecHashes")
+    load = idx.method(fsh, "__attrs_post_init__") or idx.method(fsh, "__init__")
+    from .evalhelpers import load_path
+    lp = load_path(ctx, f"{CORE}:FileSpecHashes", "hashes")
+    r.check(lp is not None and lp.endswith("spec-hashes.json"), f"{fsh.module.relpath}::FileSpecHashes.load", "records of earlier invocations are loaded from the store's file",
+            "the recorded hashes of earlier invocations are not loaded: every target looks never-recorded", fsh.where)
 
 
 def run(ctx):
